@@ -78,6 +78,7 @@ def run(ctx):
         else:
             jobs = [("quick-shapes", "LexObj_gen.cfg", {})]
             jobs += [("a3-%d" % i, "LexObj_thorough.cfg", dict(Shapes='{"a3"}', Slice=str(i), NSlices="8")) for i in range(8)]
+            jobs += [("a4r-%d" % i, "LexObj_thorough.cfg", dict(Shapes='{"a4r"}', Slice=str(i), NSlices="2")) for i in range(2)]
             jobs += [("d2-%d" % i, "LexObj_thorough.cfg", dict(Shapes='{"d2"}', Slice=str(i), NSlices="4")) for i in range(4)]
             jobs += [("n2-%d" % i, "LexObj_thorough.cfg", dict(Shapes='{"n2"}', Slice=str(i), NSlices="2")) for i in range(2)]
             jobs += [("n3r-%d" % i, "LexObj_thorough.cfg", dict(Shapes='{"n3r"}', Slice=str(i), NSlices="4")) for i in range(4)]
